@@ -33,6 +33,7 @@ enum {
     LC_INTMIN,      /* INT64_MIN */
     LC_STR32K,      /* 32768 bytes: the smallest string that needs a 4-byte length prefix */
     LC_BYT32K,      /* 32768 bytes of binary */
+    LC_STRHI,       /* "h<k>" + 0xc3 0xa9: text whose last bytes are >= 0x80 (plain char signedness) */
     LC_OBJ = 100,   /* containers */
     LC_ARR
 };
@@ -52,6 +53,7 @@ static inline void vf_emit_leaf(vf_doc *d, int cls, int k)
     case LC_INTMIN: vf_b_int(d, INT64_MIN); break;
     case LC_STR:   { int l = snprintf(tmp, sizeof tmp, "s%d", k); vf_b_blob(d, VK_STR, tmp, (size_t) l); break; }
     case LC_STR0:  vf_b_blob(d, VK_STR, "", 0); break;
+    case LC_STRHI: { int l = snprintf(tmp, sizeof tmp, "h%d\xc3\xa9", k); vf_b_blob(d, VK_STR, tmp, (size_t) l); break; }
     case LC_STRNUL: tmp[0] = 'x'; tmp[1] = 0; tmp[2] = (char) ('0' + k % 10); vf_b_blob(d, VK_STR, tmp, 3); break;
     case LC_STR128: memset(tmp, 'a' + k % 26, 128); vf_b_blob(d, VK_STR, tmp, 128); break;
     case LC_BYT:   tmp[0] = (char) (0xb0 + k); tmp[1] = 0; tmp[2] = (char) 0xff; vf_b_blob(d, VK_BYT, tmp, 3); break;
